@@ -3,6 +3,10 @@ import QF.Props.Tie
 namespace QF.Props.C05
 
 /-- T1: the functions this property's mirror model follows have today the source text the model was written against. -/
-theorem tie : Tie.sameAll ["grouper.Distinct", "grouper.groupIndex", "grouper.insertEntry", "grouper.grow", "qframe.QFrame.Distinct"] = true := by decide
+-- Tie audit (bin/selftest-ties): the following functions are not compared as text any more; every behaviour-changing edit of
+-- them makes a `gen_*_canon` theorem of this property's modules fail, renaming their locals or reformatting them changes nothing:
+-- `grouper.Distinct`, `groupIndex`, `table.insertEntry`, `table.grow`: regenerated as `Gen.grouperFns` (grpast.go), `C04GrouperCanon.gen_grouper_canon` +
+-- `C04GrouperGen.gen_grouper_semantics`, `C05DistinctGen.gen_distinct_spec`.
+theorem tie : Tie.sameAll ["qframe.QFrame.Distinct"] = true := by decide
 
 end QF.Props.C05
